@@ -149,7 +149,7 @@ def touch(path):
 
 def sbepp_version():
     txt = open(os.path.join(REPO, "CMakeLists.txt")).read()
-    m = re.search(r"VERSION\s+([0-9.]+)", txt)
+    m = re.search(r"project\(\s*sbepp\s+VERSION\s+([0-9.]+)", txt)
     return m.group(1) if m else "0.0.0"
 
 
